@@ -2,14 +2,20 @@ package lab
 
 import (
 	"testing/synctest"
+
 	"time"
+	"verif/h/core"
 )
 
 // Quiesce returns when every goroutine in the bubble is durably blocked.
-func Quiesce() { synctest.Wait() }
+func Quiesce() {
+	synctest.Wait()
+	core.Tick()
+}
 
 // Advance moves the bubble's fake clock forward by d and waits for quiescence.
 func Advance(d time.Duration) {
 	time.Sleep(d)
 	synctest.Wait()
+	core.Tick()
 }
